@@ -172,6 +172,8 @@ def _forward_ref(repo, ob, failure):
         (['<use id="t" href="#b" xy="30 40"/>', '<rect id="s" cxy="#t@c" wh="4"/>', '<rect id="b" wh="10"/>'], [2, 0, 1]),
         (['<rect id="d" xy="#a|h" wh="4"/>', '<rect id="s" cxy="#d@c" wh="2"/>', '<rect id="a" xy="10" wh="4"/>'], [2, 0, 1]),
         (['<rect id="d" xy="#a|h" wh="4"/>', '<rect id="s" xy="1 2" width="#d" height="#d 50%"/>', '<rect id="a" xy="10" wh="4"/>'], [2, 0, 1]),
+        (['<rect id="s" surround="#d"/>', '<rect id="d" cx="#a~x2" cy="10" width="4" height="4"/>', '<rect id="a" x="20" y="0" width="5" height="5"/>'], [0, 2, 1]),
+        (['<rect id="s" xy="#d|h 2" wh="3"/>', '<circle id="d" x="#a~x2" y="10" r="4"/>', '<rect id="a" x="20" y="0" width="5" height="5"/>'], [0, 2, 1]),
         (['<rect id="p" inside="#a"/>', '<circle id="a" cxy="#b@c" r="9"/>', '<rect id="b" xy="30 20" wh="4"/>'], [2, 1, 0]),
         (['<rect id="p" inside="#a"/>', '<ellipse id="a" cxy="#b@c" rxy="9 6"/>', '<rect id="b" xy="30 20" wh="4"/>'], [2, 1, 0]),
     ]
